@@ -126,6 +126,11 @@ class Server:
         from . import child
         child.preinstall_monitor()
         self.cache_dir = cache_dir
+        try:
+            from . import inventory
+            self.env_names = inventory.env_names()
+        except Exception:
+            self.env_names = []
         self.peer = None          # a Peer (sim.variant): second reference model, lazily started
         self.peer_variant = None
         self.mem = {}
@@ -284,9 +289,24 @@ class Server:
         pristine fork, values passed forward canonically."""
         for op in ops:
             if "pseudo" in op:
-                if op["pseudo"] in ("evict", "dropclass"):
+                ps = op["pseudo"]
+                if ps in ("evict", "dropclass"):
                     for r in op.get("regs", ()):
                         regc.pop(r, None)
+                elif ps == "mk":
+                    regc[op["out"]] = op["value"]
+                elif ps == "mutate_reg":
+                    # the caller's own change to its own object, mirrored on the model's value
+                    c = regc.get(op["reg"])
+                    if isinstance(c, list) and len(c) == 2:
+                        if c[0] == "bytearray" and op["how"] == "set":
+                            regc[op["reg"]] = ["bytearray", op["payload"]]
+                        elif c[0] == "list" and op["how"] == "append":
+                            regc[op["reg"]] = ["list", list(c[1]) + [op["payload"]]]
+                        elif c[0] == "list" and op["how"] == "pop" and c[1]:
+                            regc[op["reg"]] = ["list", list(c[1])[:-1]]
+                        elif c[0] == "list" and op["how"] == "reverse":
+                            regc[op["reg"]] = ["list", list(reversed(c[1]))]
                 continue
             op.pop("skip", None)
             op.pop("gold", None)
@@ -451,14 +471,19 @@ class Server:
                 if od != gold["od"]:
                     g = self.mem.get(gold["key"]) or {}
                     gout = g.get("outcome")
+                    det = {"got_digest": od, "golden_digest": gold["od"],
+                           "got": _short(oc), "golden": _short(gout)}
                     if (str(op.get("ty", "")).startswith("pt3:") and oc[0] == "ret"
                             and gout and gout[0] == "ret" and oc[1] != ["big"]
                             and self.proj_equal(spec, oc[1], gout[1])):
+                        # same group element, other projective representative: the raw
+                        # coordinates a caller reads are still not a function of the
+                        # arguments alone (on a pure tree the representative is fixed)
                         cnt["representation_drift"] += 1
-                        continue
+                        det["note"] = ("same curve point, different projective "
+                                       "representative (x, y, z)")
                     viol.append({"invariant": "H3", "task": t, "op": k, "function": fnk,
-                                 "detail": {"got_digest": od, "golden_digest": gold["od"],
-                                            "got": _short(oc), "golden": _short(gout)}})
+                                 "detail": det})
         return viol, cnt
 
 
